@@ -19,7 +19,8 @@ from ..common import NCPU
 
 BE = ["numpy", "jax", "cupy"]
 TA = ["core", "einsum"]
-BAD = {"be": ["nope", "pytorch"], "ta": ["nope"]}
+# unselectable names: unknown ones, a known-but-not-installed one, and the names of the OTHER manager
+BAD = {"be": ["nope", "pytorch", "einsum", "core"], "ta": ["nope", "numpy", "jax"]}
 
 
 def parse_dot(path):
@@ -125,7 +126,7 @@ def random_program(rng, threads, length, maxdepth=3):
             ops.append({"ev": "Enter", "t": t, "m": m, "name": rng.choice(names), "loc": rng.random() < 0.5})
             depth[t].append(m)
         elif depth[t]:
-            ops.append({"ev": "Exit", "t": t, "m": depth[t].pop(), "how": rng.choice(["normal", "exception"])})
+            ops.append({"ev": "Exit", "t": t, "m": depth[t].pop(), "how": rng.choice(["normal", "exception", "base_exception"])})
         else:
             ops.append({"ev": "Query", "t": t, "m": m})
     return ops
